@@ -93,11 +93,15 @@ func corpusJobs() []job {
 	// read sliced past the end of the line. Every rejected value of every special variable, reached through every getline form,
 	// followed by more reads, splits and prints: no panic.
 	for _, bad := range []string{"INPUTMODE=csv separator=\xff", "INPUTMODE=tsv separator=\xc3", "INPUTMODE=csv separator=, comment=,", "INPUTMODE=csv separator=\"", "INPUTMODE=csv comment=\xfe",
-		"INPUTMODE=bogus", "INPUTMODE=csv separator=ab", "INPUTMODE=csv header=maybe", "INPUTMODE=csv separator=\x00", "OUTPUTMODE=csv separator=\xff", "OUTPUTMODE=tsv separator=\n", "OUTPUTMODE=nope",
+		"INPUTMODE=bogus", "INPUTMODE=csv separator=ab", "INPUTMODE=csv header=maybe", "INPUTMODE=csv separator=\x00", "OUTPUTMODE=csv separator=\xff", "OUTPUTMODE=tsv separator=\n", "OUTPUTMODE=nope", "OUTPUTMODE=csv separator=\"", "OUTPUTMODE=tsv separator=\r", "OUTPUTMODE=csv separator=\x00", "OUTPUTMODE=csv separator=\xc3",
 		"OUTPUTMODE=csv separator=ab", "CONVFMT=%d %d", "OFMT=%s", "NF=-1", "NF=1e9", "NR=x", "FS=a(", "RS=(b", "SUBSEP=\xff", "ARGC=-1", "RSTART=x", "FILENAME=zz"} {
 		for _, prog := range []string{
-			`BEGIN { r1 = (getline x); r2 = (getline y); print r1, r2, x, y; $0 = "p,q\xffr s"; print NF, $1, $2; $3 = "t"; print }`,
+			`BEGIN { r1 = (getline x); r2 = (getline y); print r1, r2, x, y; $0 = "p,q\xffr s"; print NF, $1, $2; $3 = "t"; print; NF = 2; print; $1 = ""; print length($0); NF = 0; print; $5 = "\"q"; print }`,
 			`BEGIN { r1 = getline; print r1, NF, $1; r2 = getline; print r2, NF, $1, $2; while ((getline z) > 0) n++; print n, NR }`,
+			// field and NF assignments (record rebuilt under the possibly half-assigned output mode) BEFORE anything is printed; printf
+			// only, which does not go through the output mode (seeded C02-r1)
+			`BEGIN { r = getline; $2 = "x"; printf "%s|%s|%d\n", r, $0, NF; NF = 3; $0 = "a b"; $1 = $1; r2 = (getline z); $3 = "z\"q"; NF = 1; printf "%s|%s|%d\n", r2, $0, NF }`,
+			`BEGIN { getline u } { $(NF + 2) = "t"; n += length($0); NF = 1; $1 = ""; n += length($0) } END { $2 = "y"; printf "%d %d %s\n", n, NF, $0 }`,
 			`BEGIN { getline junk } { print NR, NF, $1; $2 = "v w"; print; print $1, $2 > "/dev/stdout" } END { print NR, $0 }`,
 			`NR == 1 { getline; getline u; print NR, NF, u } { n += NF } END { print n, split($0, parts), length(parts) }`,
 		} {
